@@ -195,7 +195,7 @@ func init() {
 	register(&Prop{
 		ID: "C12", Cmd: "parse",
 		Rule: "four workloads in turn (random certified grammars; trimmed token sequences; every literal parser under Trim; a left-recursive sum of integers with free whitespace) with the parsed file preceded by 1-3 random other files; the same content is also parsed alone and everything observable is compared modulo the offset shift. Non-trivial = the parse produced a result or an error positioned in the file (always); distinct = distinct case text.",
-		Count: quickN(6000, 60000),
+		Count: quickN(6000, 240000),
 		Gen:   c12Gen,
 		Exec:  c12Exec,
 	})
